@@ -13,14 +13,20 @@ pub struct ABuf {
     shift: usize,
     len: usize,
     pattern: u8,
+    skew: usize,
 }
 
 impl ABuf {
     pub fn new(bytes: &[u8], shift16: usize, pattern: u8) -> Self {
-        let shift = shift16 * 16;
+        Self::new_skewed(bytes, shift16, pattern, 0)
+    }
+    /// `skew` (< 16) extra bytes of offset: the buffer starts at an address that
+    /// is `skew` modulo 16 (array sets need the values, not the prefix, aligned).
+    pub fn new_skewed(bytes: &[u8], shift16: usize, pattern: u8, skew: usize) -> Self {
+        let shift = shift16 * 16 + skew;
         let total = GUARD + shift + bytes.len() + GUARD + 16;
         let words = total / 16 + 2;
-        let mut b = ABuf { backing: vec![0u128; words], shift, len: bytes.len(), pattern };
+        let mut b = ABuf { backing: vec![0u128; words], shift, len: bytes.len(), pattern, skew };
         b.all_mut().fill(pattern);
         b.bytes_mut().copy_from_slice(bytes);
         b
@@ -51,7 +57,7 @@ impl ABuf {
     pub fn extend_zero(&mut self, n: usize) {
         let mut v = self.bytes().to_vec();
         v.extend(std::iter::repeat(0u8).take(n));
-        *self = ABuf::new(&v, self.shift / 16, self.pattern);
+        *self = ABuf::new_skewed(&v, (self.shift - self.skew) / 16, self.pattern, self.skew);
     }
 }
 
